@@ -617,6 +617,38 @@ pub fn cases(prop: &str, thorough: bool, seed: u64, c: &mut Cases) {
                 c.emit("find", &format!("find {k}"));
             }
         }
+        "C06" => {
+            for v in 0..65536u32 {
+                c.emit("rank/every-u16-value", &format!("rank {v}"));
+            }
+            c.emit("rankdefault", "rankdefault");
+            let deck = layout_deck();
+            for _ in 0..(if thorough { 100_000 } else { 10_000 }) {
+                let mut idx: Vec<usize> = (0..52).collect();
+                rng.shuffle(&mut idx);
+                c.emit("ev5/seeded-hand (rank of the hand)", &format!("ev5 {}", join(idx[..5].iter().map(|i| deck[*i]))));
+            }
+        }
+        "C07" => {
+            let mut vals: Vec<u32> = vec![0, 1, 2, 7461, 7462, 7463, 7464, 32767, 32768, 65534, 65535];
+            for b in [1u32, 11, 167, 323, 1600, 1610, 2468, 3326, 6186] {
+                vals.extend([b - 1, b, b + 1]);
+            }
+            vals.sort_unstable();
+            vals.dedup();
+            for &a in &vals {
+                for &b in &vals {
+                    c.emit("cmp/boundary-pairs", &format!("cmp {a} {b}"));
+                }
+            }
+            for _ in 0..(if thorough { 300_000 } else { 30_000 }) {
+                let pick = |r: &mut Rng| -> u32 {
+                    match r.below(4) { 0 => r.below(7464) as u32, 1 => 7400 + r.below(200) as u32, 2 => r.below(65536) as u32, _ => r.below(20) as u32 }
+                };
+                let (a, b) = (pick(&mut rng), pick(&mut rng));
+                c.emit("cmp/seeded-pairs", &format!("cmp {a} {b}"));
+            }
+        }
         "C13" => {
             let perms: Vec<usize> = if thorough { (0..120).step_by(7).collect() } else { vec![0, 1 + rng.below(119) as usize] };
             for p in perms {
@@ -737,6 +769,8 @@ pub fn sweep(prop: &str, thorough: bool, seed: u64) -> Sweep {
         "C01" => sweep_c01(seed, thorough),
         "C13" => sweep_c13(seed, thorough),
         "C05" => sweep_c05(seed, thorough),
+        "C06" => sweep_c06(),
+        "C07" => sweep_c07(seed, thorough),
         "C20" => sweep_c20(),
         _ => panic!("no sweep for {prop}"),
     }
@@ -1113,6 +1147,8 @@ pub struct Oracle5 {
     pub ord: Vec<u16>,       // index: class code
     pub strength: Vec<u32>,  // index: class code
     pub classes: usize,
+    pub cat_name: Vec<String>,   // index: ordinal (1..=7462)
+    pub class_name: Vec<String>, // index: ordinal
 }
 pub fn class_code(sorted_desc: [u32; 5], flush: bool) -> usize {
     let mut e = 0usize;
@@ -1125,16 +1161,23 @@ impl Oracle5 {
     pub fn load() -> Oracle5 {
         let path = std::env::var("CKC_ORACLE5").unwrap_or_else(|_| "build/oracle5.txt".into());
         let text = std::fs::read_to_string(&path).unwrap_or_else(|e| panic!("oracle file {path}: {e}"));
-        let nums: Vec<u64> = text.split_whitespace().map(|t| t.parse().expect("oracle number")).collect();
-        assert!(nums.len() % 8 == 0, "oracle format");
+        let toks: Vec<&str> = text.split_whitespace().collect();
+        assert!(toks.len() % 10 == 0, "oracle format");
         let mut ord = vec![0u16; 13usize.pow(5) * 2];
         let mut strength = vec![0u32; 13usize.pow(5) * 2];
-        for ch in nums.chunks(8) {
+        let mut cat_name = vec![String::new(); 7463];
+        let mut class_name = vec![String::new(); 7463];
+        for t in toks.chunks(10) {
+            let ch: Vec<u64> = t[..8].iter().map(|x| x.parse().expect("oracle number")).collect();
             let code = class_code([ch[0] as u32, ch[1] as u32, ch[2] as u32, ch[3] as u32, ch[4] as u32], ch[5] == 1);
             ord[code] = ch[6] as u16;
             strength[code] = ch[7] as u32;
+            if (ch[6] as usize) < cat_name.len() {
+                cat_name[ch[6] as usize] = t[8].to_string();
+                class_name[ch[6] as usize] = t[9].to_string();
+            }
         }
-        Oracle5 { ord, strength, classes: nums.len() / 8 }
+        Oracle5 { ord, strength, classes: toks.len() / 10, cat_name, class_name }
     }
     /// deck indices (documented deck order) -> (ordinal, class code)
     pub fn of_indices(&self, idx: &[usize; 5]) -> (u16, usize) {
@@ -1457,4 +1500,163 @@ fn sweep_c05(seed: u64, thorough: bool) -> Sweep {
     total.sample(format!("Seven::default() -> {:?}", guarded(|| Seven::default().hand_rank_value())));
     total.sample(format!("find_in_products(0) = {:?}, (47) = {:?}", guarded(|| Five::find_in_products(0)), guarded(|| Five::find_in_products(47))));
     total
+}
+
+/// C06: every 16-bit value and every five-card hand against the names written by the Lean specification.
+fn sweep_c06() -> Sweep {
+    let oracle = Oracle5::load();
+    let mut s = Sweep { exhaustive: true, ..Default::default() };
+    let mut last_class: Option<String> = None;
+    let mut seen_classes: Vec<String> = Vec::new();
+    for v in 0u32..65536 {
+        s.evaluations += 1;
+        let hrv = v as u16;
+        let r = HandRank::from(hrv);
+        let valid = (1..=7462).contains(&v);
+        if valid { s.nontrivial += 1; }
+        let (want_cat, want_class) = if valid { (oracle.cat_name[v as usize].clone(), oracle.class_name[v as usize].clone()) } else { ("Invalid".to_string(), "Invalid".to_string()) };
+        let got = (format!("{:?}", r.name), format!("{:?}", r.class));
+        if got != (want_cat.clone(), want_class.clone()) || r.value != hrv {
+            s.fail("HandRank::from(value) does not describe the class of that strength ordinal", &v.to_string(), &format!("{want_cat} {want_class}"), &format!("{} {} value {}", got.0, got.1, r.value));
+        }
+        if r.is_invalid() == valid || !r.is_a_valid_hand_rank() {
+            s.fail("is_invalid / is_a_valid_hand_rank", &v.to_string(), &format!("is_invalid = {}, consistent", !valid), &format!("is_invalid = {}, consistent = {}", r.is_invalid(), r.is_a_valid_hand_rank()));
+        }
+        if valid {
+            if last_class.as_ref() != Some(&got.1) {
+                if seen_classes.contains(&got.1) {
+                    s.fail("a class covers two separate value ranges", &v.to_string(), "contiguous", &got.1);
+                }
+                seen_classes.push(got.1.clone());
+                last_class = Some(got.1.clone());
+            }
+        }
+    }
+    if seen_classes.len() != 309 && s.failure_count == 0 {
+        s.fail("number of non-Invalid classes with a non-empty value range", "1..=7462", "309", &seen_classes.len().to_string());
+    }
+    if HandRank::default() != HandRank::from(0) {
+        s.fail("HandRank::default", "default", "from(0)", &format!("{:?}", HandRank::default()));
+    }
+    s.count("values", 65536);
+    // link to the cards: every five-card hand's reported rank names the hand's own class
+    let deck = layout_deck();
+    let parts: Vec<Sweep> = par_ranges(48, 48, |lo, hi| {
+        let mut p = Sweep::default();
+        for a in lo as usize..hi as usize {
+            for b in a + 1..52 { for c in b + 1..52 { for d in c + 1..52 { for e in d + 1..52 {
+                let idx = [a, b, c, d, e];
+                let (ord, _) = oracle.of_indices(&idx);
+                // a rotated slot order, so that not only the canonical order is seen
+                let arr = [deck[idx[(a + 1) % 5]], deck[idx[(a + 2) % 5]], deck[idx[(a + 3) % 5]], deck[idx[(a + 4) % 5]], deck[idx[a % 5]]];
+                p.evaluations += 1;
+                p.nontrivial += 1;
+                match guarded(|| Five::from(arr).hand_rank()) {
+                    Some(r) => {
+                        let got = (format!("{:?}", r.name), format!("{:?}", r.class));
+                        if got.0 != oracle.cat_name[ord as usize] || got.1 != oracle.class_name[ord as usize] || r.value != Five::from(arr).hand_rank_value() {
+                            p.fail("the rank reported for a hand does not describe its cards", &join(arr), &format!("{} {}", oracle.cat_name[ord as usize], oracle.class_name[ord as usize]), &format!("{} {} value {}", got.0, got.1, r.value));
+                        }
+                    }
+                    None => p.fail("hand_rank panics", &join(arr), "a rank", "panic"),
+                }
+            } } } }
+        }
+        p
+    });
+    for p in parts { s.merge(p); }
+    s.count("five-card hands", 2_598_960);
+    s.rule = "all 65,536 values: name, class, value, is_invalid, consistency and contiguity against the category / class names written by the Lean specification for each strength ordinal; all 2,598,960 five-card hands (one rotated slot order each): the reported rank's names against the hand's own class; non-trivial = value in 1..=7462 or any hand".into();
+    s.sample(format!("from(1) = {:?}", HandRank::from(1)));
+    s.sample(format!("from(183) = {:?}", HandRank::from(183)));
+    s.sample(format!("from(7463) = {:?}", HandRank::from(7463)));
+    s
+}
+
+/// C07: comparison against the explicit integer key; enumerations in step with the value.
+fn sweep_c07(seed: u64, thorough: bool) -> Sweep {
+    let key = |v: u32| -> u32 { if v == 0 || v > 7462 { 65535 - v } else { 65536 + (7462 - v) } };
+    let ranks: Vec<HandRank> = (0u32..65536).map(|v| HandRank::from(v as u16)).collect();
+    let check = |a: u32, b: u32, s: &mut Sweep| {
+        let (p, q) = (&ranks[a as usize], &ranks[b as usize]);
+        let want = key(a).cmp(&key(b));
+        let c = p.cmp(q);
+        let ok = c == want
+            && p.partial_cmp(q) == Some(c)
+            && (p < q) == (c == std::cmp::Ordering::Less)
+            && (p <= q) == (c != std::cmp::Ordering::Greater)
+            && (p > q) == (c == std::cmp::Ordering::Greater)
+            && (p >= q) == (c != std::cmp::Ordering::Less)
+            && (p == q) == (a == b)
+            && (c == std::cmp::Ordering::Equal) == (p == q);
+        if !ok {
+            s.fail("comparison is not the lawful total order (cmp, partial_cmp, <, <=, >, >=, == against the integer key)", &format!("{a} {b}"), &format!("{want:?}"), &format!("cmp {c:?} partial {:?} == {}", p.partial_cmp(q), p == q));
+        }
+    };
+    let mut s = Sweep::default();
+    // enumerations: discriminants never decrease along v = 1..=7462, Invalid is greatest
+    for v in 1u32..7462 {
+        s.evaluations += 1;
+        let (p, q) = (&ranks[v as usize], &ranks[v as usize + 1]);
+        if !(p.name <= q.name && p.class <= q.class && (p.name as u8) <= (q.name as u8) && (p.class as u16) <= (q.class as u16)) {
+            s.fail("category / class enumeration order contradicts strength order", &format!("{v} {}", v + 1), "non-decreasing", &format!("{:?} {:?} then {:?} {:?}", p.name, p.class, q.name, q.class));
+        }
+        if !(p.name < ranks[0].name && p.class < ranks[0].class) {
+            s.fail("Invalid is not the greatest variant", &v.to_string(), "below Invalid", &format!("{:?} {:?}", p.name, p.class));
+        }
+    }
+    if thorough {
+        let parts: Vec<Sweep> = par_ranges(65536, 256, |lo, hi| {
+            let mut p = Sweep::default();
+            for a in lo as u32..hi as u32 {
+                for b in 0u32..65536 {
+                    check(a, b, &mut p);
+                }
+            }
+            p.evaluations += (hi - lo) * 65536;
+            p
+        });
+        for p in parts { s.merge(p); }
+        s.exhaustive = true;
+        s.nontrivial = 1u64 << 32;
+        s.count("ordered pairs (all 2^32)", 1 << 32);
+    } else {
+        // every pair from the boundary set (each class boundary +-1) and seeded pairs
+        let mut vals: Vec<u32> = vec![0, 1, 65535, 65534, 32768];
+        for v in 1u32..7464 {
+            if ranks[v as usize].class != ranks[v as usize - 1].class {
+                vals.extend([v - 1, v, v + 1]);
+            }
+        }
+        vals.sort_unstable();
+        vals.dedup();
+        for &a in &vals {
+            for &b in &vals {
+                check(a, b, &mut s);
+            }
+        }
+        s.evaluations += (vals.len() * vals.len()) as u64;
+        s.nontrivial += (vals.len() * vals.len()) as u64;
+        s.count("boundary-set pairs", (vals.len() * vals.len()) as u64);
+        let n = 20_000_000u64;
+        let parts: Vec<Sweep> = par_ranges(n, threads(), |lo, hi| {
+            let mut p = Sweep::default();
+            let mut rng = Rng::new(seed ^ lo ^ 0xC07);
+            for _ in lo..hi {
+                let a = if rng.below(2) == 0 { rng.below(7500) } else { rng.below(65536) } as u32;
+                let b = if rng.below(2) == 0 { rng.below(7500) } else { rng.below(65536) } as u32;
+                check(a, b, &mut p);
+            }
+            p.evaluations += hi - lo;
+            p
+        });
+        for p in parts { s.merge(p); }
+        s.nontrivial += n;
+        s.count("seeded pairs", n);
+    }
+    s.rule = "pairs of converted 16-bit values: cmp, partial_cmp, the four operators and == against comparison of an explicit injective integer key (transitivity over triples follows); quick: all pairs of the class-boundary set plus seeded pairs, thorough: all 2^32 pairs; plus the enumeration orders along all adjacent values".into();
+    s.sample(format!("from(0).cmp(from(7463)) = {:?}", ranks[0].cmp(&ranks[7463])));
+    s.sample(format!("from(1).cmp(from(2)) = {:?}", ranks[1].cmp(&ranks[2])));
+    s.sample(format!("from(7462).cmp(from(0)) = {:?}", ranks[7462].cmp(&ranks[0])));
+    s
 }
